@@ -4,7 +4,7 @@ import RV.Base.Proto
   C09 driver.  Strings cross the protocol as comma-separated code points (`-` = empty).
 
     lex <dt> <cps> [d|t|o]               (normalize default / explicit True / rdflib.NORMALIZE_LITERALS off)
-                                         → lex|ill₀|val₀|valid₁|back₁|n1same|idem|ill₁|val₁[|spell…]
+                                         → lex|ill₀|val₀|valid₁|back₁|n1same|idem|ill₁|val₁|eq(l₁, reread l₁)[|spell…]
         l₀ = Literal(s, dt, normalize=False), l₁ = Literal(s, dt), n₁ = l₀.normalize(), n₂ = n₁.normalize()
     py <pyspec>                          → py|dt|valid|back[|spell]
         l = Literal(v); valid = lexical form in the XSD lexical space (Lean recogniser); back = value of re-reading it
@@ -164,7 +164,11 @@ def lexLine (st : St) (d : Dt) (s : Str) (nz : Bool := true) : String :=
         | some n2 =>
           let back := (mkLex (some d) l1.lex false).map (·.value)
           let backS := match back with | some v => canon v | none => "raise"
-          let base := s!"lex|{showIll l0.ill}|{canon l0.value}|{b01 (Spec.validLex d l1.lex)}|{backS}|{b01 (n1.lex == l1.lex)}|{b01 (n2.lex == n1.lex)}|{showIll l1.ill}|{canon l1.value}"
+          -- value-space equality with the (term-equal) literal built from its own lexical form
+          let eqB := match mkLex (some d) l1.lex false with
+            | some r => (match l1.eq r with | some true => "1" | some false => "0" | none => "TypeError")
+            | none => "raise"
+          let base := s!"lex|{showIll l0.ill}|{canon l0.value}|{b01 (Spec.validLex d l1.lex)}|{backS}|{b01 (n1.lex == l1.lex)}|{b01 (n2.lex == n1.lex)}|{showIll l1.ill}|{canon l1.value}|{eqB}"
           if st.spell then s!"{base}|{showCps l0.lex}|{showCps l1.lex}|{showCps n1.lex}|{showCps n2.lex}" else base
         | none => "lex|raise"
       | none => "lex|raise"
